@@ -1388,6 +1388,11 @@ impl<D: DependencyProvider, RT: AsyncRuntime> Solver<D, RT> {
                 .as_solvable(&self.state.variable_map)
                 .map(|s| self.provider().solvable_name(s));
             if let Some(name_id) = name_id {
+                // The activity vector is sized when the candidates of a package arrive, but a
+                // solvable can be known before that (e.g. a soft requirement).
+                if self.state.name_activity.len() <= name_id.to_usize() {
+                    self.state.name_activity.resize(name_id.to_usize() + 1, 0.0);
+                }
                 self.state.name_activity[name_id.to_usize()] += self.activity_add;
             }
         }
